@@ -96,6 +96,10 @@ func reach(t *Tree, roots []*ssa.Function, dyn map[*ssa.Function][]*ssa.Function
 					}
 				}
 			}
+			if tg := tableFuncTargets(cc.Value); len(tg) > 0 {
+				work = append(work, tg...)
+				return
+			}
 			unresolved = append(unresolved, dynSite{f, in})
 		})
 	}
@@ -246,4 +250,79 @@ func loadScope(t *Tree) (map[*ssa.Function]bool, []dynSite) {
 	roots := []*ssa.Function{t.Func(pEngine, "ParseScript"), t.Func(pEngine, "ParseV2"), t.Func(pEngine, "EngineCallRefLinkAndCheck"), t.Func(pRT2, "CheckPassParam"), t.Func(pRT2, "CheckFnParamDef")}
 	roots = append(roots, cs...)
 	return reach(t, roots, dyn)
+}
+
+// tableFuncTargets resolves a call of a value looked up in a read-only package-level table (map, array or slice
+// filled once by the package initialiser and never written elsewhere, see roTable): the callees are the function
+// values stored in the table. Struct-valued rows are followed one field deep.
+func tableFuncTargets(v ssa.Value) []*ssa.Function {
+	for i := 0; i < 4; i++ {
+		switch x := v.(type) {
+		case *ssa.Extract:
+			v = x.Tuple
+			continue
+		case *ssa.Field:
+			v = x.X
+			continue
+		case *ssa.Lookup:
+			v = x.X
+		case *ssa.Index:
+			v = x.X
+		case *ssa.UnOp:
+			if ia, ok := x.X.(*ssa.IndexAddr); ok {
+				v = ia.X
+				if _, isG := v.(*ssa.Global); isG {
+					v = &ssa.UnOp{X: v}
+				}
+			} else if fa, ok := x.X.(*ssa.FieldAddr); ok {
+				v = fa.X
+				continue
+			}
+		}
+		break
+	}
+	g := globalOfLoad(v)
+	if g == nil {
+		return nil
+	}
+	tab := roTable(g)
+	if tab == nil {
+		return nil
+	}
+	var out []*ssa.Function
+	var add func(val ssa.Value, depth int) bool
+	add = func(val ssa.Value, depth int) bool {
+		switch c := val.(type) {
+		case *ssa.Function:
+			out = append(out, c)
+			return true
+		case *ssa.MakeClosure:
+			if f, ok := c.Fn.(*ssa.Function); ok {
+				out = append(out, f)
+				return true
+			}
+		case *ssa.Const:
+			return true
+		case *ssa.UnOp: // a struct row built in a temporary: its field stores
+			if al, ok := c.X.(*ssa.Alloc); ok && depth == 0 && al.Referrers() != nil {
+				for _, r := range *al.Referrers() {
+					if fa, ok := r.(*ssa.FieldAddr); ok && fa.Referrers() != nil {
+						for _, r2 := range *fa.Referrers() {
+							if st, ok := r2.(*ssa.Store); ok && !add(st.Val, 1) {
+								return false
+							}
+						}
+					}
+				}
+				return true
+			}
+		}
+		return false
+	}
+	for _, k := range sortedKeys(tab.vals) {
+		if !add(tab.vals[k], 0) {
+			return nil
+		}
+	}
+	return out
 }
